@@ -181,6 +181,10 @@ func main() {
 		rn.rw.Count("corpus")
 		rn.iter(d)
 	}
+	for _, d := range DenseSweep(rng.Split()) {
+		rn.rw.Count("dense-sweep")
+		rn.iter(d)
+	}
 	maxn := 6
 	if o.Tier == "thorough" {
 		maxn = 8
